@@ -22,13 +22,91 @@ def rt(run):
     run.run_harness(b, timeout=7200)
 
 
+# ---------------------------------------------------------------------------------------------
+# program batches (generated traits compiled against the current tree)
+
+import batch as _batch
+import cargo_diag as _diag
+
+PB_TARGET = os.path.join(common.TARGET, "pb")
+
+
+def pb_params(tier, seed):
+    if tier == "quick":
+        return [dict(idx=0, n=int(os.environ.get("VERIF_PB_TRAITS", "20")), cases=int(os.environ.get("VERIF_PB_CASES", "150")), release=False)]
+    return [dict(idx=i, n=48, cases=1500, release=(i == 5)) for i in range(6)]
+
+
+def build_batch(run, seed, p):
+    """Generate + build one batch; modules the current tree rejects are dropped and counted."""
+    name = f"pb-{run.tier}-{p['idx']}"
+    exclude, rejected = set(), {}
+    for attempt in range(6):
+        d, traits, desc = _batch.make_batch(seed * 16 + p["idx"], p["n"], name, exclude=exclude)
+        ok, exe, errs, tail = _diag.build(d, PB_TARGET, release=p["release"], timeout=3000)
+        if ok:
+            return exe, desc, rejected, d
+        bad = set()
+        for f, msgs in errs.items():
+            base = os.path.basename(f or "")
+            if base.startswith("m") and base.endswith(".rs") and base[1:-3].isdigit():
+                bad.add(base[:-3])
+                rejected[base[:-3]] = msgs[:2]
+            else:
+                raise Infra(f"program batch does not build (not attributable to a generated definition): {f}: {msgs[:3]}\n{tail[-1500:]}")
+        if not bad:
+            raise Infra("program batch does not build:\n" + tail[-3000:])
+        exclude |= bad
+    raise Infra("program batch still does not build after dropping rejected modules")
+
+
+def progbatch(run, extra_args=None):
+    seed = run.seed
+    params = pb_params(run.tier, seed)
+    if run.replay:
+        body = json.load(open(run.replay))
+        ep = body.get("engine_params") or {}
+        if ep:
+            run.tier_for_batch = ep.get("tier", run.tier)
+            seed = ep.get("seed", seed)
+            params = [q for q in pb_params(ep.get("tier", run.tier), seed) if q["idx"] == ep.get("idx", 0)]
+    total_rejected = {}
+    for p in params:
+        exe, desc, rejected, d = build_batch(run, seed, p)
+        for m, msgs in rejected.items():
+            total_rejected[f"batch{p['idx']}/{m}"] = {"definition": desc.get(m), "rustc": msgs}
+        args = ["--cases", str(p["cases"])] + (extra_args or [])
+        res = run.run_harness(exe, args=args, timeout=3600, label=f"batch{p['idx']}")
+        res["_params"] = {"tier": run.tier if not run.replay else getattr(run, "tier_for_batch", run.tier), "seed": seed, "idx": p["idx"]}
+        # a few generated definitions as samples
+        if not run.replay:
+            run.extra_cov.setdefault("sample_definitions", [])
+            for m in list(desc)[:2]:
+                run.extra_cov["sample_definitions"].append(desc[m])
+    run.extra_cov["compile_rejected"] = len(total_rejected)
+    if total_rejected:
+        run.extra_cov["compile_rejected_detail"] = dict(list(total_rejected.items())[:5])
+
+
 PROPS = {
+    "C01": progbatch,
+    "C02": progbatch,
+    "C06": progbatch,
+    "C07": progbatch,
+    "C13": None,
     "C10": rt,
     "C11": rt,
     "C12": rt,
-    "C13": rt,
     "C14": rt,
     "C15": rt,
     "C16": rt,
     "C19": rt,
 }
+
+
+def c13(run):
+    rt(run)
+    progbatch(run)
+
+
+PROPS["C13"] = c13
